@@ -800,7 +800,7 @@ func (s *Session) write(w bool, n *com.Packet) error {
 	)
 	m++
 	for i := 0; i < m && t < x; i++ {
-		c := &com.Packet{ID: n.ID, Job: n.Job, Flags: n.Flags, Chunk: data.Chunk{Limit: limits.Frag}}
+		c := &com.Packet{ID: n.ID, Job: n.Job, Flags: n.Flags, Device: n.Device, Chunk: data.Chunk{Limit: limits.Frag}}
 		c.Flags.SetGroup(g)
 		c.Flags.SetLen(uint16(m))
 		c.Flags.SetPosition(uint16(i))
